@@ -1,4 +1,5 @@
 """Seeded generators shared by the property checks (DESIGN.md §5.4)."""
+import collections.abc
 import hashlib
 
 from core import (Case, S, SB, ac, cvn, cvv, hx, kd, mac, opt, optn, sm, tlv, tools, tree_tokens)
@@ -297,16 +298,106 @@ class Recorder:
         return "[" + ",".join(t + "=" + v.hex().upper() for t, v in self.log) + "]"
 
 
+class ListRecorder(list):
+    """the same recording function as a callable that keeps its log in itself: it is falsy until first called,
+    like an empty registry of per-tag converters"""
+
+    def __call__(self, t, v):
+        self.append((t, bytes(v)))
+        try:
+            tb = bytes.fromhex(t)
+        except Exception:  # noqa: BLE001
+            tb = b"??" + str(t).encode()
+        return tb + b":" + bytes(v)
+
+    @property
+    def log(self):
+        return list(self)
+
+    def render(self):
+        return "[" + ",".join(t + "=" + v.hex().upper() for t, v in self) + "]"
+
+
+def make_recorder(form):
+    """0: plain callable object, 1: falsy callable, 2: bound method, 3: closure; all carry .log / .render"""
+    if form % 4 == 1:
+        return ListRecorder()
+    rec = Recorder()
+    if form % 4 == 2:
+        f = rec.__call__
+    elif form % 4 == 3:
+        def f(t, v, _r=rec):
+            return _r(t, v)
+    else:
+        return rec
+    # functions cannot carry the log themselves: wrap so that the harness can read it
+    class _Fn:
+        def __init__(self, fn, rec):
+            self.fn, self.rec = fn, rec
+        log = property(lambda self: self.rec.log)
+        def render(self):
+            return self.rec.render()
+    return _Fn(f, rec)
+
+
+def conv_arg(rec):
+    """the object handed to tlv.decode as convert="""
+    return getattr(rec, "fn", rec)
+
+
+class RaisingConv:
+    """a conversion function whose k-th call raises the given exception object (calls are counted from 1)"""
+
+    def __init__(self, k, exc):
+        self.k, self.exc, self.calls = k, exc, 0
+
+    def __call__(self, t, v):
+        self.calls += 1
+        if self.calls == self.k:
+            raise self.exc
+        return bytes.fromhex(t) + b":" + bytes(v)
+
+
+def cst_partial(items, k, flatten):
+    """the top-level tree at the moment the k-th primitive object is about to be stored (decoder's own order)"""
+    root = {}
+    cnt = [0]
+
+    class _Stop(Exception):
+        pass
+
+    def walk(its, d):
+        for tag, _l, (kind, body) in its:
+            name = tag.hex().upper()
+            if kind == "C":
+                if flatten:
+                    walk(body, d)
+                else:
+                    d[name] = {}
+                    walk(body, d[name])
+            else:
+                cnt[0] += 1
+                if cnt[0] == k:
+                    raise _Stop
+                d[name] = tag + b":" + body
+    try:
+        walk(items, root)
+    except _Stop:
+        pass
+    return root
+
+
 def op_decode(data, fl, si, conv=False, as_bytearray=False, **kw):
     flags = ("f" if fl else "") + ("s" if si else "") + ("c" if conv else "")
+    form = kw.get("rec_form", (len(data) * 7 + sum(data[:4]) + fl + 2 * si) % 4)
 
     def call():
         arg = bytearray(data) if as_bytearray else data
         if not conv:
             return tlv.decode(arg, flatten=fl, simple=si)
-        rec = Recorder()
+        rec = make_recorder(form)
         try:
-            r = tlv.decode(arg, flatten=fl, simple=si, convert=rec)
+            r = tlv.decode(arg, flatten=fl, simple=si, convert=conv_arg(rec))
         except tlv.DecodeError as e:
             # the partial tree and the log travel in the error answer
             e2 = e
@@ -527,6 +618,48 @@ BOUNDARY_LENS = [0, 1, 2, 126, 127, 128, 129, 254, 255, 256, 257]
 BIG_LENS = [65534, 65535, 65536, 65537]
 
 
+class HexStr(str):
+    """a str subclass, as hex-string wrappers in applications are"""
+
+
+class RawBytes(bytes):
+    pass
+
+
+class RawArray(bytearray):
+    pass
+
+
+class LazyMap(collections.abc.Mapping):
+    """a Mapping view that builds each child template afresh on every access (nothing keeps the child alive)"""
+
+    def __init__(self, spec):
+        self._spec = spec
+
+    def _make(self, v):
+        if isinstance(v, dict):
+            return {k: self._make(x) if isinstance(x, dict) else x for k, x in v.items()}
+        return v
+
+    def __getitem__(self, k):
+        return self._make(self._spec[k])
+
+    def __iter__(self):
+        return iter(self._spec)
+
+    def __len__(self):
+        return len(self._spec)
+
+    def items(self):
+        for k in self._spec:
+            yield k, self._make(self._spec[k])
+
+
+def _plain(d):
+    """a plain-dict copy of a generated tree (nested wrappers opened)"""
+    return {k: _plain(v) if isinstance(v, collections.abc.Mapping) else v for k, v in d.items()}
+
+
 def gen_tree(R, depth, simple, wellformed=True, boundary=False, big=False):
     """returns a dict tree for tlv.encode; keys may differ only in case/whitespace (distinct str keys)"""
     t = {}
@@ -552,6 +685,8 @@ def gen_tree(R, depth, simple, wellformed=True, boundary=False, big=False):
             elif k < .28:
                 import collections
                 sub = collections.UserDict(sub)
+            elif k < .36:
+                sub = LazyMap(_plain(sub))
             t[name] = sub
         else:
             if big and R.random() < .3:
@@ -564,16 +699,17 @@ def gen_tree(R, depth, simple, wellformed=True, boundary=False, big=False):
                 ln = min(ln, 40)
             v = R.randbytes(ln) if ln < 1000 else bytes([R.randrange(256)]) * ln
             k = R.random()
+            sub_cls = R.random() < .12
             if k < .45:
-                t[name] = v
+                t[name] = RawBytes(v) if sub_cls else v
             elif k < .6:
-                t[name] = bytearray(v)
+                t[name] = RawArray(v) if sub_cls else bytearray(v)
             else:
                 hs = v.hex()
                 hs = hs.upper() if R.random() < .5 else case_mix(R, hs)
                 if R.random() < .15 and ln < 200:
                     hs = spaced(R, hs)
-                t[name] = hs
+                t[name] = HexStr(hs) if sub_cls else hs
     return t
 
 
